@@ -123,11 +123,22 @@ SURFACE_STMTS = [
     ("stream", "{ std::ostringstream o; o << a; std::printf(\"%s\\n\", o.str().c_str()); }"),
     ("chrono", "{ std::chrono::duration<R> d = au::seconds(R(5)); PR(d.count()); }"), ("const", "P(au::SPEED_OF_LIGHT.template as<R>(au::meters / au::second));"),
     ("spaceship", "PB((a <=> b) > 0);"),
+    # every label shape, odr-used and linked (C++14 needs the out-of-class definitions of the constexpr label members)
+    ("label-inv-product", "PL(au::pow<-1>(au::Meters{} * au::Seconds{}));"), ("label-quotient", "PL(au::Meters{} / au::Seconds{});"),
+    ("label-product", "PL(au::Meters{} * au::Seconds{});"), ("label-pow", "PL(au::pow<3>(au::Meters{}));"), ("label-negpow", "PL(au::pow<-2>(au::Seconds{}));"),
+    ("label-root", "PL(au::root<2>(au::Meters{}));"), ("label-compound-quotient", "PL((au::Meters{} * au::Grams{}) / (au::Seconds{} * au::Kelvins{}));"),
+    ("label-scaled", "PL(au::Meters{} * au::mag<3>());"), ("label-rational-scaled", "PL(au::Feet{} * au::mag<5>() / au::mag<7>());"),
+    ("label-irrational-scaled", "PL(au::Meters{} * au::Magnitude<au::Pi>{});"), ("label-prefixed", "PL(au::Kilo<au::Meters>{});"),
+    ("label-prefixed-compound", "PL(au::Milli<decltype(au::Meters{} / au::Seconds{})>{});"), ("label-common", "PL(au::CommonUnitT<au::Feet, au::Meters>{});"),
+    ("label-common-point", "PL(au::CommonPointUnitT<au::Celsius, au::Fahrenheit>{});"), ("label-unitless", "PL(au::UnitProductT<>{});"),
+    ("label-unlabeled", "PL(c20::Nameless{});"), ("label-maglabel", "std::printf(\"%s %s %d\\n\", TAG, au::mag_label(au::mag<22>() / au::mag<7>()), (int)sizeof(au::mag_label(au::mag<22>() / au::mag<7>())));"),
+    ("label-stream-inverse", "{ std::ostringstream o; o << (R(6) / (a * t)); std::printf(\"%s %s\\n\", TAG, o.str().c_str()); }"),
 ]
 
 SURFACE_PRE = r'''
 using au::min; using au::max;
 namespace c20 {
+struct Nameless : au::UnitImpl<au::Length, decltype(au::mag<13>())> {};
 template <typename T> void pr(const char *tag, T v, std::true_type) { std::printf("%s int %lld sz=%d sg=%d\n", tag, (long long)v, (int)sizeof(T), (int)std::is_signed<T>::value); }
 template <typename T> void pr(const char *tag, T v, std::false_type) { std::printf("%s flt %La sz=%d\n", tag, (long double)v, (int)sizeof(T)); }
 template <typename T> void praw(const char *tag, T v) { pr(tag, v, std::is_integral<T>{}); }
@@ -136,6 +147,7 @@ template <typename U, typename R> void pq(const char *tag, au::Quantity<U, R> q)
     praw(t.c_str(), q.in(U{}));
 }
 }
+#define PL(u) std::printf("%s label '%s' %d\n", TAG, au::unit_label(u), (int)sizeof(au::unit_label(u)))
 #define P(x) c20::pq(TAG, (x))
 #define PR(x) c20::praw(TAG, (x))
 #define PB(x) std::printf("%s bool %d\n", TAG, (int)(x))
@@ -245,7 +257,6 @@ def check(run):
         res, _ = core.run_probes(cfg, pl, os.path.join(run.wd, "surf_" + cfg.name), "c20s", pre, batch=24)
         verdicts[cfg.name] = {p.pid: res[p.pid][0] for p in pl}
         evals += len(pl)
-    ref = all_cfgs[0].name
     common = []
     n_acc = n_rej = 0
     for p in probes:
@@ -271,15 +282,32 @@ def check(run):
         exe = os.path.join(wd, "surface")
         rc, err = core.build_exe(cfg, src, exe, [])
         if rc != 0:
-            raise core.InfraError("surface program does not build under %s although every statement was accepted alone: %s" % (cfg, err[-1500:]))
+            return cfg.name, None, err
         rc, o, e = core.sh([exe], timeout=120)
         if rc != 0:
             raise core.InfraError("surface program failed under %s" % cfg)
-        return cfg.name, o
-    for name, o in core.pmap(runcfg, all_cfgs):
-        outs[name] = o
+        return cfg.name, o, ""
+    build_fail = {}
+    for name, o, err in core.pmap(runcfg, all_cfgs):
+        if o is None:
+            build_fail[name] = err
+        else:
+            outs[name] = o
+    if build_fail and not outs:
+        raise core.InfraError("surface program builds under no configuration although every statement was accepted alone: %s" % list(build_fail.values())[0][-1500:])
+    for name, err in build_fail.items():
+        # accepted statement by statement (syntax-only) under every configuration, builds and runs under some, but does
+        # not build/link under this one: the same program behaves differently across standards/compilers
+        und = sorted(set(re.findall(r"undefined reference to `([^']+)'", err)))[:3]
+        key = "C20:build-differs:%s:%s" % (name, (und[0][:80] if und else (core._first_error(err) or "?")[:80]))
+        run.violation(key, "the API-surface program (every statement accepted alone by all six configurations) builds under %s but not under %s: %s"
+                      % (sorted(outs), name, und or core._first_error(err) or err[-300:]),
+                      run.write_replay(key, {"kind": "surface-build", "config": name, "diag": err[-2000:]}))
+    ref = [c.name for c in all_cfgs if c.name in outs][0]
     ref_lines = outs[ref].split("\n")
-    for c in all_cfgs[1:]:
+    for c in all_cfgs:
+        if c.name == ref or c.name not in outs:
+            continue
         ls = outs[c.name].split("\n")
         evals += len(ls)
         if ls != ref_lines:
